@@ -16,7 +16,7 @@ ASSUMPTIONS = [
     "every point classified r lies in the 1e-9-inflated closed polygon drawn for r (linear real arithmetic; no bound on N)",
 ]
 OUTSIDE = ["what matplotlib renders, files on disk, fonts", "the Uversky boundary line (no classifier to compare with)", "save_linearComposition (scipy spline)", "saveFormat forwarding of save_multiple_uverskyPlot2"]
-NMAX = {"quick": 4, "thorough": 6}
+NMAX = {"quick": 4, "thorough": 8}
 ITEM_TIMEOUT = {"quick": 900, "thorough": 2400}
 
 
